@@ -100,7 +100,7 @@ func (s *loopSet) translate(name string) string {
 	leanName := strings.ReplaceAll(name, ".", "_")
 	t := &loopTr{name: name, set: s, p: s.p, info: s.tp.info, fd: fd, vars: map[types.Object]string{}, params: map[types.Object]bool{},
 		safe: map[*ast.IndexExpr]bool{}, pairBuf: map[types.Object]bool{}, synthCond: map[*ast.IfStmt]string{},
-		tagged: map[types.Object]int{}, restBuf: map[types.Object]bool{}, absDeps: map[string]string{}, capSens: map[types.Object]bool{}}
+		tagged: map[types.Object]int{}, restBuf: map[types.Object]bool{}, absDeps: map[string]string{}, capSens: map[types.Object]bool{}, spareCap: map[types.Object]bool{}}
 	if fd.Type.TypeParams != nil || fd.Body == nil {
 		t.fail(fd, "generic functions and bodyless functions are not supported")
 	}
@@ -111,10 +111,19 @@ func (s *loopSet) translate(name string) string {
 		}
 		return true
 	})
-	t.errAt = t.buildsErrAt()
+	t.errAt, t.errOpt = t.mixesErrors()
+	t.asBound = map[types.Object]types.Object{}
+	t.errFrom = map[types.Object]*fnSig{}
 	t.collectFacts()
 	// variables: unique, usable names
 	byName := map[string][]types.Object{}
+	usedNames := map[string]bool{}
+	ast.Inspect(fd, func(n ast.Node) bool {
+		if id, ok := n.(*ast.Ident); ok {
+			usedNames[id.Name] = true
+		}
+		return true
+	})
 	nested := func(a, b types.Object) bool { // the scope of a encloses the scope of b
 		for sc := b.Parent(); sc != nil; sc = sc.Parent() {
 			if sc == a.Parent() {
@@ -131,18 +140,39 @@ func (s *loopSet) translate(name string) string {
 		if _, isVar := o.(*types.Var); !isVar {
 			t.fail(id, "unsupported declaration of %s", id.Name)
 		}
+		lname := id.Name
+		for _, sg := range loopSigs {
+			// a local called like a namespace of generated functions (`chars` vs chars.encoding_decode) would capture it
+			if i := strings.Index(sg.lean, "."); i > 0 && sg.lean[:i] == id.Name {
+				for k := 2; ; k++ {
+					lname = fmt.Sprintf("%s_%d", id.Name, k)
+					if !usedNames[lname] {
+						break
+					}
+				}
+				break
+			}
+		}
 		for _, prev := range byName[id.Name] {
 			if prev == o {
 				return
 			}
 			if nested(prev, o) || nested(o, prev) {
-				t.fail(id, "two variables called %s in nested scopes (shadowing is not supported)", id.Name)
+				// two variables of the same name in nested scopes: the translation goes by object, so the second one only
+				// needs a Lean name of its own
+				for k := 2; ; k++ {
+					lname = fmt.Sprintf("%s_%d", id.Name, k)
+					if !usedNames[lname] {
+						break
+					}
+				}
 			}
 		}
+		usedNames[lname] = true
 		if o == t.recv {
 			return
 		}
-		if leanReserved[id.Name] || strings.HasPrefix(id.Name, "st_") || strings.HasPrefix(id.Name, "sw_") || strings.HasPrefix(id.Name, "var_") || s.all[id.Name] || id.Name == "nil" ||
+		if leanReserved[id.Name] || strings.HasPrefix(id.Name, "st_") || strings.HasPrefix(id.Name, "sw_") || strings.HasPrefix(id.Name, "rk_") || strings.HasPrefix(id.Name, "var_") || s.all[id.Name] || id.Name == "nil" ||
 			strings.HasSuffix(id.Name, "_rest") {
 			t.fail(id, "variable name %s clashes with a name used by the generated Lean text", id.Name)
 		}
@@ -152,7 +182,7 @@ func (s *loopSet) translate(name string) string {
 			}
 		}
 		byName[id.Name] = append(byName[id.Name], o)
-		t.vars[o] = id.Name
+		t.vars[o] = lname
 	}
 	var params []string
 	for _, f := range t.fields {
@@ -272,7 +302,7 @@ func (s *loopSet) translate(name string) string {
 			ps = append(ps, fmt.Sprintf("(%s : %s)", n, t.absDeps[n]))
 		}
 		params = append(ps, params...)
-		doc += "; PARAMETER " + strings.Join(ns, ", ") + ": the method of that name, which is not translated (its fields in, its fields out, none = panic)"
+		doc += "; PARAMETER " + strings.Join(ns, ", ") + ": not translated — an abstract method (its fields in, its fields out, none = panic), a library function, or a field of a package-level struct; passed in by the caller"
 	}
 	t.register(leanName)
 	if t.flowFn {
@@ -541,6 +571,13 @@ func (t *loopTr) block(list []ast.Stmt, ind string, m blockMode, k func(ind stri
 	case *ast.SwitchStmt:
 		return t.switchStmt(s, list[1:], ind, m, k)
 	case *ast.IfStmt:
+		if s.Init != nil {
+			// `if init; cond { … }`: init, then the conditional (names are unique: shadowing is rejected, and Go does not let the
+			// variable be used after the statement, so widening its scope changes nothing)
+			s2 := *s
+			s2.Init = nil
+			return t.block(append([]ast.Stmt{s.Init, &s2}, list[1:]...), ind, m, k)
+		}
 		if s.Init == nil {
 			if hpre, hpost := t.hoistCalls(ind, m, nil, s.Cond); hpre != "" {
 				return hpre + t.ifStmt(s, ind, m, rest) + hpost
@@ -624,6 +661,9 @@ func (t *loopTr) simple(st ast.Stmt) []binding {
 				t.fail(s, "unsupported declaration")
 			}
 			for i, id := range vs.Names {
+				if t.isAsTarget(t.objOf(id)) {
+					continue // `var e *T`, only used as the target of errors.As: e is the error it is bound to there
+				}
 				_, name, k := t.localVar(id)
 				var val string
 				switch {
@@ -638,7 +678,7 @@ func (t *loopTr) simple(st ast.Stmt) []binding {
 					val = fmt.Sprintf("0#%d", k.width())
 				case k == kBool:
 					val = "false"
-				case k == kErr, k == kErrAt:
+				case isErrKind(k):
 					val = "none"
 				case isPlainArray(t.objOf(id).Type()):
 					n, _ := arrayLen(t.objOf(id).Type())
@@ -702,6 +742,19 @@ func (t *loopTr) simple(st ast.Stmt) []binding {
 				}
 				v, vk := t.expr(s.Rhs[0])
 				t.selfAppend = nil
+				if isErrKind(k) {
+					if c, isCall := unparen(s.Rhs[0]).(*ast.CallExpr); isCall {
+						if csig, _ := t.sigOf(c); csig != nil {
+							t.errFrom[o] = csig
+						}
+					}
+					switch {
+					case k == kErrOpt && vk == kErr:
+						v, vk = "(Go.errOfPlain "+v+")", k
+					case k == kErrOpt && vk == kErrAt:
+						v, vk = "(Go.errOfAt "+v+")", k
+					}
+				}
 				if vk != k {
 					t.fail(s, "assignment of %s to %s", vk.lean(), k.lean())
 				}
@@ -778,6 +831,11 @@ func (t *loopTr) ifStmt(s *ast.IfStmt, ind string, m blockMode, rest func(string
 		t.fail(s, "if with an init statement is not supported")
 	}
 	c, fromSwitch := t.synthCond[s]
+	if c == "" {
+		if ac, isAs := t.asCondition(s.Cond); isAs {
+			c = ac
+		}
+	}
 	if c == "" {
 		var ck lkind
 		c, ck = t.expr(s.Cond)
@@ -896,6 +954,11 @@ func (t *loopTr) rangeStmt(s *ast.RangeStmt, ind string, m blockMode, rest func(
 		return id
 	}
 	key, val := ident(s.Key), ident(s.Value)
+	if xtv, ok := t.info.Types[s.X]; ok && val != nil {
+		if b, isBasic := xtv.Type.Underlying().(*types.Basic); isBasic && b.Kind() == types.String {
+			return t.rangeRunes(s, key, val, ind, m, rest)
+		}
+	}
 	if key != nil && val != nil {
 		t.fail(s, "range with both key and value is not supported")
 	}
@@ -914,7 +977,7 @@ func (t *loopTr) rangeStmt(s *ast.RangeStmt, ind string, m blockMode, rest func(
 	var list, binder string
 	switch {
 	case xk.isSlice() && val != nil:
-		list, binder = xs, fmt.Sprintf("(%s : %s)", val.Name, xk.elem().lean())
+		list, binder = xs, fmt.Sprintf("(%s : %s)", t.vars[t.info.Defs[val]], xk.elem().lean())
 	case xk.isSlice():
 		list = "((List.range " + xs + ".length).map (BitVec.ofNat 64))"
 	case xk == kInt && val == nil:
@@ -928,7 +991,7 @@ func (t *loopTr) rangeStmt(s *ast.RangeStmt, ind string, m blockMode, rest func(
 	if binder == "" {
 		n := "_"
 		if key != nil {
-			n = key.Name
+			n = t.vars[t.info.Defs[key]]
 		}
 		binder = fmt.Sprintf("(%s : BitVec 64)", n)
 	}
@@ -941,6 +1004,8 @@ func (t *loopTr) loopOver(s ast.Node, body *ast.BlockStmt, list, binder, ind str
 	objs := t.stateOf(body, s)
 	tup, ty := t.tuple(objs)
 	in := ind + "    "
+	elemPre := strings.ReplaceAll(t.loopPre, "\x00", in) // bindings of the loop variables out of the element (rangeRunes)
+	t.loopPre = ""
 	if m.flow && t.needsFlow(body, true) {
 		st := t.stateName(objs)
 		fn, bm, end := "Go.forIn", m.noBreak(""), "Go.Flow.run "+tup
@@ -949,7 +1014,7 @@ func (t *loopTr) loopOver(s ast.Node, body *ast.BlockStmt, list, binder, ind str
 			fn, end = "Go.forInB", "Go.Flow.run (false, "+tup+")"
 			bm.brk = func(ind string) string { return ind + "Go.Flow.run (true, " + tup + ")" }
 		}
-		b := t.unpack(in, st, objs) + t.block(body.List, in, bm, func(ind string) string { return ind + end })
+		b := t.unpack(in, st, objs) + elemPre + t.block(body.List, in, bm, func(ind string) string { return ind + end })
 		return fmt.Sprintf("%s%sGo.Flow.bind (%s %s %s (fun (%s : %s) %s =>\n%s)) (fun (%s : %s) =>\n%s%s)",
 			pre, ind, fn, list, tup, st, ty, binder, b, st, ty, t.unpack(ind, st, objs), rest(ind))
 	}
@@ -960,10 +1025,42 @@ func (t *loopTr) loopOver(s ast.Node, body *ast.BlockStmt, list, binder, ind str
 	if len(objs) > 1 {
 		st = t.freshName()
 	}
-	b := t.unpack(in, st, objs) + t.block(body.List, in, blockMode{}, func(ind string) string { return ind + tup })
+	b := t.unpack(in, st, objs) + elemPre + t.block(body.List, in, blockMode{}, func(ind string) string { return ind + tup })
 	fold := fmt.Sprintf("List.foldl (fun (%s : %s) %s =>\n%s) %s %s", st, ty, binder, b, tup, list)
 	if len(objs) == 1 {
 		return pre + let(ind, tup, ty, fold, rest(ind))
 	}
 	return fmt.Sprintf("%s%slet %s : %s := %s\n%s%s", pre, ind, st, ty, fold, t.unpack(ind, st, objs), rest(ind))
+}
+
+// rangeRunes translates `for i, c := range s` / `for _, c := range s` over a string: the elements are the pairs
+// (byte offset of the rune start, rune) that Go's UTF-8 decoder yields (Go.runes).
+func (t *loopTr) rangeRunes(s *ast.RangeStmt, key, val *ast.Ident, ind string, m blockMode, rest func(string) string) string {
+	plain, indexed := t.assignedIn(s.Body)
+	ast.Inspect(s.X, func(n ast.Node) bool {
+		if id, ok := n.(*ast.Ident); ok {
+			if o := t.info.Uses[id]; o != nil && (plain[o] || indexed[o]) {
+				t.fail(s, "the loop body assigns `%s`, over which it ranges", id.Name)
+			}
+		}
+		return true
+	})
+	for _, id := range []*ast.Ident{key, val} {
+		if id != nil && plain[t.info.Defs[id]] {
+			t.fail(s, "the loop body assigns the range variable %s", id.Name)
+		}
+	}
+	xs, xk := t.expr(s.X)
+	if xk != kString {
+		t.fail(s, "range over %s", xk.lean())
+	}
+	t.fresh++
+	el := fmt.Sprintf("rk_%d", t.fresh)
+	pre := ""
+	if key != nil {
+		pre += fmt.Sprintf("\x00let %s : BitVec 64 := %s.1\n", t.vars[t.info.Defs[key]], el)
+	}
+	pre += fmt.Sprintf("\x00let %s : BitVec 32 := %s.2\n", t.vars[t.info.Defs[val]], el)
+	t.loopPre = pre
+	return t.loopOver(s, s.Body, "(Go.runes "+xs+")", fmt.Sprintf("(%s : BitVec 64 × BitVec 32)", el), ind, m, rest)
 }
